@@ -274,9 +274,9 @@ def leaveRegistry : List (String × String) := [
 def table : Table := { methods := methods, visit := visitDispatch, dispatchers := dispatchers, slots := slots }
 
 /-! witness documents, parsed by the real parser on this run (attribute `loc` dropped, ids = pre-order numbers) -/
-/-- `query Q($v: [Int!] = 1 @d) { ... on T { a } } fragment F($w: Int) on T { a }` -/
+/-- `query Q($v: [Int!] = 1 @d, $u: Int!) { ... on T { a } } fragment F($w: Int) on T { a }` -/
 def witnessExec : Node :=
-  .mk "Document" 0 [("definitions", .many [.mk "OperationDefinition" 1 [("operation", .scalar "\"query\""), ("name", .one (some (.mk "Name" 2 [("value", .scalar "\"Q\"")]))), ("variable_definitions", .many [.mk "VariableDefinition" 3 [("variable", .one (some (.mk "Variable" 4 [("name", .one (some (.mk "Name" 5 [("value", .scalar "\"v\"")])))]))), ("type", .one (some (.mk "ListType" 6 [("type", .one (some (.mk "NonNullType" 7 [("type", .one (some (.mk "NamedType" 8 [("name", .one (some (.mk "Name" 9 [("value", .scalar "\"Int\"")])))])))])))]))), ("default_value", .one (some (.mk "IntValue" 10 [("value", .scalar "\"1\"")]))), ("directives", .many [.mk "Directive" 11 [("name", .one (some (.mk "Name" 12 [("value", .scalar "\"d\"")]))), ("arguments", .many [])]])]]), ("directives", .many []), ("selection_set", .one (some (.mk "SelectionSet" 13 [("selections", .many [.mk "InlineFragment" 14 [("type_condition", .one (some (.mk "NamedType" 15 [("name", .one (some (.mk "Name" 16 [("value", .scalar "\"T\"")])))]))), ("directives", .many []), ("selection_set", .one (some (.mk "SelectionSet" 17 [("selections", .many [.mk "Field" 18 [("name", .one (some (.mk "Name" 19 [("value", .scalar "\"a\"")]))), ("alias", .one none), ("arguments", .many []), ("directives", .many []), ("selection_set", .one none)]])])))]])])))], .mk "FragmentDefinition" 20 [("name", .one (some (.mk "Name" 21 [("value", .scalar "\"F\"")]))), ("variable_definitions", .many [.mk "VariableDefinition" 22 [("variable", .one (some (.mk "Variable" 23 [("name", .one (some (.mk "Name" 24 [("value", .scalar "\"w\"")])))]))), ("type", .one (some (.mk "NamedType" 25 [("name", .one (some (.mk "Name" 26 [("value", .scalar "\"Int\"")])))]))), ("default_value", .one none), ("directives", .many [])]]), ("type_condition", .one (some (.mk "NamedType" 27 [("name", .one (some (.mk "Name" 28 [("value", .scalar "\"T\"")])))]))), ("directives", .many []), ("selection_set", .one (some (.mk "SelectionSet" 29 [("selections", .many [.mk "Field" 30 [("name", .one (some (.mk "Name" 31 [("value", .scalar "\"a\"")]))), ("alias", .one none), ("arguments", .many []), ("directives", .many []), ("selection_set", .one none)]])])))]])]
+  .mk "Document" 0 [("definitions", .many [.mk "OperationDefinition" 1 [("operation", .scalar "\"query\""), ("name", .one (some (.mk "Name" 2 [("value", .scalar "\"Q\"")]))), ("variable_definitions", .many [.mk "VariableDefinition" 3 [("variable", .one (some (.mk "Variable" 4 [("name", .one (some (.mk "Name" 5 [("value", .scalar "\"v\"")])))]))), ("type", .one (some (.mk "ListType" 6 [("type", .one (some (.mk "NonNullType" 7 [("type", .one (some (.mk "NamedType" 8 [("name", .one (some (.mk "Name" 9 [("value", .scalar "\"Int\"")])))])))])))]))), ("default_value", .one (some (.mk "IntValue" 10 [("value", .scalar "\"1\"")]))), ("directives", .many [.mk "Directive" 11 [("name", .one (some (.mk "Name" 12 [("value", .scalar "\"d\"")]))), ("arguments", .many [])]])], .mk "VariableDefinition" 13 [("variable", .one (some (.mk "Variable" 14 [("name", .one (some (.mk "Name" 15 [("value", .scalar "\"u\"")])))]))), ("type", .one (some (.mk "NonNullType" 16 [("type", .one (some (.mk "NamedType" 17 [("name", .one (some (.mk "Name" 18 [("value", .scalar "\"Int\"")])))])))]))), ("default_value", .one none), ("directives", .many [])]]), ("directives", .many []), ("selection_set", .one (some (.mk "SelectionSet" 19 [("selections", .many [.mk "InlineFragment" 20 [("type_condition", .one (some (.mk "NamedType" 21 [("name", .one (some (.mk "Name" 22 [("value", .scalar "\"T\"")])))]))), ("directives", .many []), ("selection_set", .one (some (.mk "SelectionSet" 23 [("selections", .many [.mk "Field" 24 [("name", .one (some (.mk "Name" 25 [("value", .scalar "\"a\"")]))), ("alias", .one none), ("arguments", .many []), ("directives", .many []), ("selection_set", .one none)]])])))]])])))], .mk "FragmentDefinition" 26 [("name", .one (some (.mk "Name" 27 [("value", .scalar "\"F\"")]))), ("variable_definitions", .many [.mk "VariableDefinition" 28 [("variable", .one (some (.mk "Variable" 29 [("name", .one (some (.mk "Name" 30 [("value", .scalar "\"w\"")])))]))), ("type", .one (some (.mk "NamedType" 31 [("name", .one (some (.mk "Name" 32 [("value", .scalar "\"Int\"")])))]))), ("default_value", .one none), ("directives", .many [])]]), ("type_condition", .one (some (.mk "NamedType" 33 [("name", .one (some (.mk "Name" 34 [("value", .scalar "\"T\"")])))]))), ("directives", .many []), ("selection_set", .one (some (.mk "SelectionSet" 35 [("selections", .many [.mk "Field" 36 [("name", .one (some (.mk "Name" 37 [("value", .scalar "\"a\"")]))), ("alias", .one none), ("arguments", .many []), ("directives", .many []), ("selection_set", .one none)]])])))]])]
 
 /-- `schema @d { query: Q } "sd" scalar S "td" type T { "fd" f("ad" x: Int = 1): Int } "id" interface I { f: Int } "ud" union U = T "ed" enum E { "vd" A } "nd" input N { "xd" x: Int } "dd" directive @d on FIELD` -/
 def witnessSdl : Node :=
